@@ -45,4 +45,22 @@ PROPS = {
             rap("split", "^TestC10Split$", 1500, 6000, 2, 16),
         ],
     },
+    "C15": {
+        "level": "exploration",
+        "level_text": "the property's domain is finite and is enumerated: every MJD day x a grid of times of day and every time of day on "
+                      "fixed dates for decoding (date and time-of-day are decoded independently), every day x grid (quick) or x all 86400 "
+                      "seconds (thorough) for encoding, every BCD duration both ways, every raw bit pattern for panic-freedom",
+        "level_note": "trusts the integer calendar arithmetic of harness/ref/dvb.go (cross-checked against the time package for MJD 0..70000 "
+                      "and against the Annex C example in setup) and the verif-tagged wrappers; time.Time values are UTC",
+        "technique": "exhaustive enumeration of the finite domain against an integer-arithmetic calendar reference",
+        "rule": "enumeration: (MJD, time of day) pairs, BCD digit patterns, canonical durations; each enumerated case is distinct by "
+                "construction; raw patterns with a non-decimal nibble only count as evaluations (panic-freedom)",
+        "assumptions": ["time.Time inputs to the encoder are in UTC with whole seconds",
+                        "BCD patterns with a nibble > 9 are outside the property (only required not to panic)"],
+        "units": [
+            det("decode_time", "^TestC15DecodeTime$"),
+            det("encode_time", "^TestC15EncodeTime$", thorough={"shards": 1, "timeout": 3000}),
+            det("durations", "^TestC15Durations$"),
+        ],
+    },
 }
